@@ -1,4 +1,106 @@
-(* C20/Props.v -- property theorems only. *)
+(* C20/Props.v -- property theorems only; each is closed by [exact] of a lemma from
+   C20/Proofs.v and followed by Print Assumptions.
+
+   Objects are the descriptors of C20/Syntax.v (sets, fields, interval products, grids,
+   partitions, weightings, tensor / discretized / arbitrarily nested weighted product
+   spaces) over the reals; [eqt v a b] is the outcome (TT / FF / EE = raises) of a == b
+   as transcribed in C20/Model.v; [hash_key v a] the tuple fed to hash().  [v] selects,
+   for two recorded findings, the behaviour of the code under test (the harness measures
+   it): theorems are stated for the repaired behaviour, refutations for the current one. *)
 From Coq Require Import ZArith List Bool Reals.
 From Verif Require Import Base.Num Base.Check C20.Syntax C20.Model C20.Proofs.
 Import ListNotations.
+
+(* ---------------------------------------------------------------- equality is an equivalence *)
+(* For every pair of constructible objects, == never raises ... *)
+Theorem eq_total : forall v, v_intv_guard v = true ->
+  forall a b : obj R, eqt v a b <> EE.
+Proof. exact eqt_noraise. Qed.
+Print Assumptions eq_total.
+
+(* ... is reflexive (this also justifies leaving the `other is self` shortcuts out of the model) ... *)
+Theorem eq_reflexive : forall v, v_intv_guard v = true ->
+  forall a : obj R, eqt v a a = TT.
+Proof. exact eqt_refl. Qed.
+Print Assumptions eq_reflexive.
+
+(* ... symmetric (as outcomes: a == b and b == a evaluate alike) ... *)
+Theorem eq_symmetric : forall v, v_intv_guard v = true ->
+  forall a b : obj R, eqt v a b = eqt v b a.
+Proof. exact eqt_sym. Qed.
+Print Assumptions eq_symmetric.
+
+(* ... and transitive, for all nesting depths and all list lengths. *)
+Theorem eq_transitive : forall v, v_intv_guard v = true ->
+  forall a b c : obj R, eqt v a b = TT -> eqt v b c = TT -> eqt v a c = TT.
+Proof. exact eqt_trans. Qed.
+Print Assumptions eq_transitive.
+
+(* ---------------------------------------------------------------- equal objects have equal hashes *)
+(* a == b implies that the hashed tuples are equivalent (position-wise for tuples, as sets
+   for frozensets, by value for floats) -- hence hash(a) == hash(b) -- and that hash(a)
+   raises exactly when hash(b) does. *)
+Theorem eq_implies_equal_hash : forall v, v_intv_guard v = true -> v_arrw_hash_type v = false ->
+  forall a b : obj R, eqt v a b = TT ->
+  key_eqv (hash_key v a) (hash_key v b) = true /\
+  hashable (hash_key v a) = hashable (hash_key v b).
+Proof. exact eqt_hash_full. Qed.
+Print Assumptions eq_implies_equal_hash.
+
+(* ---------------------------------------------------------------- weightings and partitions *)
+(* Weighting.__eq__ and its overrides: an equivalence (equality of the descriptor with the
+   class family erased) ... *)
+Theorem weighting_eq_equivalence : forall a b c : weighting R,
+  w_eqb a a = true /\ w_eqb a b = w_eqb b a /\
+  (w_eqb a b = true -> w_eqb b c = true -> w_eqb a c = true).
+Proof. exact w_equiv. Qed.
+(* ... consistent with the hashes once the tensor-space array weighting stops hashing its class *)
+Theorem weighting_eq_implies_equal_hash : forall v, v_arrw_hash_type v = false ->
+  forall a b : weighting R, w_eqb a b = true -> w_key v a = w_key v b.
+Proof. exact w_eqb_key. Qed.
+Print Assumptions weighting_eq_implies_equal_hash.
+
+(* RectPartition.__eq__ holds exactly for identical (set, grid) data; hence an equivalence,
+   and the hashed tuple (type, set, grid) agrees *)
+Theorem partition_eq_iff : forall v, v_intv_guard v = true ->
+  forall p q : part R, part_eqt v p q = TT <-> p = q.
+Proof. exact part_eqt_TT. Qed.
+Theorem partition_eq_total : forall v, v_intv_guard v = true ->
+  forall p q : part R, part_eqt v p q <> EE.
+Proof. exact part_eqt_noraise. Qed.
+Print Assumptions partition_eq_iff.
+
+(* ---------------------------------------------------------------- membership *)
+(* x in S is decided by  x.space == S ; by symmetry it is the same as  S == x.space *)
+Theorem membership_iff_space_equal : forall v, v_intv_guard v = true ->
+  forall (S : obj R) (x : elem R), contains v S x = eqt v S (space_of x).
+Proof. exact contains_sym. Qed.
+Print Assumptions membership_iff_space_equal.
+
+(* ---------------------------------------------------------------- what the CURRENT code violates
+   Full statements (false of the faithful model with v = current_variants):
+     forall a b, eqt current a b <> EE;  forall a, eqt current a a = TT;
+     forall a b c, eqt a b = TT -> eqt b c = TT -> eqt a c = TT;
+     forall a b, eqt a b = TT -> key_eqv (hash_key a) (hash_key b) = true.          *)
+
+(* IntervalProd(0,1) == IntervalProd([0,0,0],[1,1,1]) (NumPy broadcasting) with different hashes *)
+Theorem eq_implies_equal_hash_refuted :
+  exists a b : obj R, eqt current_variants a b = TT /\
+    key_eqv (hash_key current_variants a) (hash_key current_variants b) = false.
+Proof. exact hash_refuted. Qed.
+
+(* [0,1]^2 == [0,1] and [0,1] == [0,1]^3, but [0,1]^2 == [0,1]^3 raises ValueError *)
+Theorem eq_transitive_refuted :
+  exists a b c : obj R, eqt current_variants a b = TT /\ eqt current_variants b c = TT /\
+    eqt current_variants a c = EE.
+Proof. exact trans_refuted. Qed.
+
+(* SetUnion(I2, I3) == SetUnion(I2, I3) raises *)
+Theorem eq_reflexive_refuted : exists a : obj R, eqt current_variants a a = EE.
+Proof. exact refl_refuted. Qed.
+
+(* NumpyTensorSpaceArrayWeighting(w) == ProductSpaceArrayWeighting(w) with different hashes *)
+Theorem weighting_eq_implies_equal_hash_refuted :
+  exists a b : weighting R, w_eqb a b = true /\
+    key_eqv (w_key current_variants a) (w_key current_variants b) = false.
+Proof. exact w_hash_refuted. Qed.
